@@ -36,7 +36,7 @@ MD = ["none", "dict", "callable"]
 
 def bound(tier):
     q = tier == "quick"
-    return dict(periods=dict(metric=[1, 4], observable=[1, 3], logger=[1, 3], saver=[1, 3]), starting_epoch=[1, 3], epochs=[0, 5 if q else 6],
+    return dict(periods=dict(metric=[1, 4], observable=[1, 3], logger=[1, 3], saver=[1, 3]), starting_epoch=[1, 3], epochs=[0, 5 if q else 7],
                 stop="none / at every batch end / at every epoch end of the first fit", metadata=MD, metadata_only=[False, True], save_initial=[True, False],
                 kinds=["positive", "complex", "mixed(reduced)"], consecutive=["single fit", "two fits", "two fits with clear_history between", "a metric raises at its 2nd scheduled evaluation, caller continues",
                                                                                     "fit again with the stop request still pending (after every injected stop)"])
@@ -45,7 +45,7 @@ def bound(tier):
 def plan(tier, seed):
     cfgs = []
     i = 0
-    Emax = 5 if tier == "quick" else 6
+    Emax = 5 if tier == "quick" else 7
     for kind in ("positive", "complex", "mixed"):
         for p1 in (1, 2, 3, 4):
             for p2 in (1, 2, 3):
